@@ -6,6 +6,7 @@ M2: every exported pattern x URL pair is executed on NetworkFilter::parse + matc
 M3: seeded random patterns/URLs recorded from the real matcher, validated by Trace_C02.tla."""
 import os, json
 from lib import vlib
+from checks import netcommon
 
 CFG = """INIT Init
 NEXT Next
@@ -53,6 +54,8 @@ def run(tier, seed):
         v.add_tlc(tr_r)
         v.add_report({"evaluations": summ["events"], "nontrivial": summ["nontrivial"], "samples": summ["samples"],
                       "mismatches": mism, "counters": summ.get("counters", {})}, "M3:Trace_C02", traces=1)
+    # engine-level, at scale: the regex translation inside fused regex sets and large buckets (Trace_C01)
+    netcommon.corpus_stage(v, wd, seed, 6 if tier == "quick" else 60, 40)
     v.assumptions += [
         "hosts are lower-case ASCII; URLs are built as scheme://[userinfo@]host[:port]path and the host range is known by construction (C12 checks the parser separately)",
         "'||host|' with nothing after the host part is left unspecified (adjudication in DESIGN.md)",
